@@ -5,6 +5,7 @@ from lib import S, observe_call
 import copybook_gen as G
 
 GEN = ["StructureParams", "RefFormatParams"]
+ALSO = ["C07b"]          # second engine: the whole parser on raw text (harness/c07b.py, coq/Model/Pipeline.v)
 RULE = ("random well-formed forests (1-3 records, depth <= 5, non-contiguous and ragged level numbers, groups, elementary items, "
         "OCCURS fixed/DEPENDING ON on both, REDEFINES of earlier siblings, FILLER/unnamed, 88 VALUE, 66 RENAMES, 77) printed as "
         "reference-format text with random spelling (sequence numbers, comment and blank lines, PIC/PICTURE IS, TIMES, USAGE IS, "
